@@ -601,6 +601,30 @@ func runC10(c *Ctx) error {
 			return fmt.Errorf("sequence %d: %w", i, err)
 		}
 	}
+	// crowds: a token is used, then MANY other tokens are used (anything that remembers recent lookups in generations or
+	// with a bounded size has moved the first token somewhere else by now), then the first token is revoked and presented
+	// again — on HTTP, on the websocket handshake, and after a restart
+	crowds := []int{40, 130}
+	if c.Thorough {
+		crowds = []int{3, 17, 40, 63, 64, 65, 130, 260, 600}
+	}
+	for ci, n := range crowds {
+		var ops []string
+		for i := 0; i < n; i++ {
+			ops = append(ops, "create")
+		}
+		ops = append(ops, "auth #0", "ws #1")
+		for i := 2; i < n; i++ {
+			ops = append(ops, fmt.Sprintf("auth #%d", i))
+		}
+		ops = append(ops, "revoke #0", "auth #0", "ws #0", "revoke #1", "ws #1", "auth #1")
+		mid := n / 2
+		ops = append(ops, fmt.Sprintf("revoke #%d", mid), fmt.Sprintf("auth #%d", mid), fmt.Sprintf("auth #%d", n-1), "restart", "auth #0", "auth #1", fmt.Sprintf("auth #%d", n-1), "dump")
+		if err := c10RunSeq(c, l, rng, 2000+ci, ops, "adm"+c09RandToken(rng, 20)); err != nil {
+			return fmt.Errorf("crowd sequence %d: %w", n, err)
+		}
+		c.R.Count(fmt.Sprintf("crowd sequence (%d tokens used between first use and revocation)", n), 1)
+	}
 	if err := c10SpaceProbe(c, l, rng); err != nil {
 		return err
 	}
